@@ -36,6 +36,8 @@ func main() {
 		cmdTwo(os.Args[2:])
 	case "exhaust":
 		cmdExhaust(os.Args[2:])
+	case "follow":
+		cmdFollow(os.Args[2:])
 	case "race":
 		cmdRace(os.Args[2:])
 	case "rerun":
@@ -461,4 +463,110 @@ func splitComma(s string) []string {
 		}
 	}
 	return append(out, cur)
+}
+
+// follow -in BEHAVIOURS.ndjson -out TRACE [-plans FILE]: replay behaviours of the specification (printed by
+// DagSim under tlc -simulate) on the real code: graph, limits, outcomes and cancellation point are taken from
+// the behaviour, and the controller releases goroutines in the order of the behaviour's actions.
+func cmdFollow(args []string) {
+	fs := flag.NewFlagSet("follow", flag.ExitOnError)
+	in := fs.String("in", "", "behaviour file (one JSON object per line)")
+	out := fs.String("out", "", "trace file")
+	plansOut := fs.String("plans", "", "also write the plans")
+	runBase := fs.Int("runbase", 0, "first run number")
+	seed := fs.Int64("seed", 1, "seed for the steps after the behaviour ends or is left")
+	fs.Parse(args)
+	inf, err := os.Open(*in)
+	if err != nil {
+		die("%v", err)
+	}
+	defer inf.Close()
+	f, err := os.Create(*out)
+	if err != nil {
+		die("%v", err)
+	}
+	w := bufio.NewWriterSize(f, 1<<20)
+	var pw *bufio.Writer
+	if *plansOut != "" {
+		pf, err := os.Create(*plansOut)
+		if err != nil {
+			die("%v", err)
+		}
+		defer pf.Close()
+		pw = bufio.NewWriter(pf)
+		defer pw.Flush()
+	}
+	sc := bufio.NewScanner(inf)
+	sc.Buffer(make([]byte, 1<<20), 1<<26)
+	r := rand.New(rand.NewSource(*seed))
+	cases, nontrivial, full, steps, followed := 0, 0, 0, 0, 0
+	for sc.Scan() {
+		var b struct {
+			Deps    [][]int         `json:"deps"`
+			Retries []int           `json:"retries"`
+			Limit   int             `json:"limit"`
+			Serial  bool            `json:"serial"`
+			Trail   [][]interface{} `json:"trail"`
+		}
+		if err := json.Unmarshal(sc.Bytes(), &b); err != nil {
+			die("bad behaviour: %v", err)
+		}
+		cases++
+		n := len(b.Deps)
+		ids := dh.Universe[:n]
+		p := dh.Plan{Run: *runBase + cases, G: fmt.Sprintf("f%d", *runBase+cases), Tasks: append([]string{}, ids...), Limit: b.Limit, Serial: b.Serial,
+			Outcomes: map[string][]string{}, CancelAt: -1, Seed: r.Int63()}
+		for i := 0; i < n; i++ {
+			p.History = append(p.History, dh.Op{Op: "add", T: ids[i]})
+		}
+		for i := 0; i < n; i++ {
+			for _, d := range b.Deps[i] {
+				p.History = append(p.History, dh.Op{Op: "dep", T: ids[i], D: ids[d-1]})
+			}
+			if b.Retries[i] > 0 {
+				p.History = append(p.History, dh.Op{Op: "retries", T: ids[i], R: b.Retries[i]})
+			}
+		}
+		for _, st := range b.Trail {
+			a, _ := st[0].(string)
+			vi, _ := st[1].(float64)
+			k, _ := st[2].(string)
+			v := ""
+			if vi >= 1 {
+				v = ids[int(vi)-1]
+			}
+			p.Trail = append(p.Trail, dh.TrailStep{A: a, V: v, K: k})
+			if a == "exit" {
+				p.Outcomes[v] = append(p.Outcomes[v], k)
+			}
+		}
+		res := dh.RunPlans([]*dh.Plan{&p})
+		if pw != nil {
+			q := p
+			q.Trail = nil
+			bb, _ := json.Marshal(&q)
+			pw.Write(bb)
+			pw.WriteByte('\n')
+		}
+		if res.Hang {
+			res.Events = append(res.Events, dh.Event{Ev: "hang", G: p.G, Tags: [][]string{}, Order: []string{}, Tasks: []string{}})
+		}
+		writeEvents(w, res.Events)
+		if _, nt := summarize(res.Events); nt {
+			nontrivial++
+		}
+		steps += len(p.Trail)
+		followed += p.Followed
+		if p.Followed == len(p.Trail) {
+			full++
+		}
+	}
+	w.Flush()
+	f.Close()
+	stats["behaviours-followed-to-the-end"] = full
+	stats["behaviour-steps"] = steps
+	stats["behaviour-steps-followed"] = followed
+	fmt.Printf("follow cases=%d nontrivial=%d\n", cases, nontrivial)
+	bb, _ := json.Marshal(stats)
+	fmt.Printf("STATS %s\n", bb)
 }
